@@ -277,6 +277,11 @@ where
             }
 
             let nt_len = grm.rules_len();
+            // `sg.edges(stidx)` is a `HashMap` whose iteration order differs from process to
+            // process. Every edge fills its own cell, so the table doesn't depend on that order,
+            // but the shift/reduce conflicts recorded for this state would be listed (and
+            // serialised into generated parsers) in that order: sort them once the state is done.
+            let sr_start = shift_reduce.len();
             for (&sym, ref_stidx) in sg.edges(stidx) {
                 match sym {
                     Symbol::Rule(s_ridx) => {
@@ -317,6 +322,7 @@ where
                     }
                 }
             }
+            shift_reduce[sr_start..].sort_unstable();
         }
         assert!(final_state.is_some());
 
@@ -766,6 +772,35 @@ mod test {
 
         assert_eq!(st.action(s6, grm.token_idx("+").unwrap()), Action::Shift(s3));
         assert_eq!(st.action(s6, grm.token_idx("*").unwrap()), Action::Shift(s4));
+    }
+
+    #[test]
+    fn test_shift_reduce_conflict_order_is_reproducible() {
+        // Each of the four states `E: E op E .` has four shift/reduce conflicts, found while
+        // iterating over a randomly seeded `HashMap` of edges.
+        let grm = YaccGrammar::new(
+            YaccKind::Original(YaccOriginalActionKind::GenericParseTree),
+            "
+            %start E
+            %%
+            E: E '+' E | E '-' E | E '*' E | E '/' E | 'n';
+            ",
+        )
+        .unwrap();
+        let conflicts = |grm: &YaccGrammar| {
+            let sg = pager_stategraph(grm);
+            let st = StateTable::new(grm, &sg).unwrap();
+            st.conflicts()
+                .unwrap()
+                .sr_conflicts()
+                .cloned()
+                .collect::<Vec<_>>()
+        };
+        let first = conflicts(&grm);
+        assert_eq!(first.len(), 16);
+        for _ in 0..32 {
+            assert_eq!(conflicts(&grm), first);
+        }
     }
 
     #[test]
